@@ -1,4 +1,4 @@
 SPECIFICATION CSpec
-INVARIANT Conforms BoundaryIsInitial
+INVARIANT AllProps
 VIEW View
 CHECK_DEADLOCK FALSE
